@@ -128,15 +128,36 @@ def build_value(ty, val, scenario, events):
     if n == 'Obj':
         return build_object(ty.args[0], val, scenario, events)
     if n in ('Opaque', 'Any', 'Value'):
+        if isinstance(val, dict) and '$record' in val:
+            return FakeRecord(bytes(val['$record']))
+        if isinstance(val, dict) and '$call' in val:
+            return eval(val['$call'], {'importlib': importlib})
         if isinstance(val, dict) and '$opaque' in val:
             return OpaqueStub(val['$opaque'] or (ty.args[0] if ty.args else 'obj'), scenario, events)
         return val
+    if n == 'Conn':
+        p = ConnProxy(ty.args[0], (val or {}).get('rows') if isinstance(val, dict) else None)
+        scenario.setdefault('$cleanup', []).append(p)
+        return p
     if n == 'DictStrObj':
         return dict((''.join(map(chr, k)) if not isinstance(k, str) else k, v) for k, v in (val or []))
     raise ValueError('native: cannot build a value of type %r' % (ty,))
 
 
 CURRENT_MOD = [None]
+
+
+class FakeRecord:
+    """stand-in for a python-axolotl record: only serialize() is used by the stores when writing"""
+
+    def __init__(self, b):
+        self.b = b
+
+    def serialize(self):
+        return self.b
+
+    def __deepcopy__(self, memo):
+        return self
 
 
 class OpaqueStub:
@@ -159,6 +180,186 @@ class OpaqueStub:
 
     def __repr__(self):
         return '<opaque %s>' % self.__dict__['_l'][0]
+
+
+# ---- sqlite-backed stores: real database, durable state observed through a second connection -------------------------
+import inspect as _inspect
+import shutil
+import sqlite3
+import tempfile
+import textwrap
+
+
+def _schema(cname):
+    from pyvc.sqlschema import schema_from_source
+    cls = find_class(cname)
+    return schema_from_source(textwrap.dedent(_inspect.getsource(cls.__init__)))
+
+
+def _read_table(conn, sch):
+    cur = conn.execute('SELECT %s FROM %s ORDER BY rowid' % (', '.join(sch.cols), sch.table))
+    out = {}
+    for r in cur.fetchall():
+        r = tuple(norm(x) if isinstance(x, (bytes, bytearray)) else x for x in r)
+        k = tuple(r[sch.idx(c)] for c in sch.unique)
+        out[k if len(k) > 1 else k[0]] = r
+    return out
+
+
+class ConnSnapshot:
+    def __init__(self, W, D, store):
+        self.W, self.D, self.store = W, D, store
+
+
+class CursorProxy:
+    def __init__(self, proxy, cur):
+        self._p, self._c = proxy, cur
+
+    def execute(self, *a):
+        try:
+            r = self._c.execute(*a)
+        finally:
+            self._p.snap()
+        return self
+
+    def fetchone(self):
+        return self._c.fetchone()
+
+    def fetchall(self):
+        return self._c.fetchall()
+
+
+class ConnProxy:
+    """A real sqlite3 connection; after every statement and commit the DURABLE table state (what a second
+    connection sees = what survives a crash at this instant) is recorded."""
+
+    def __init__(self, store, rows):
+        self.store = store
+        self.sch = _schema(store)
+        self.dir = tempfile.mkdtemp(prefix='pyvc_db_')
+        self.path = os.path.join(self.dir, 'a.db')
+        self.real = sqlite3.connect(self.path, check_same_thread=False)
+        self.real.text_factory = bytes
+        cls = find_class(store)
+        if store == 'LiteIdentityKeyStore':
+            # its __init__ also generates and stores the local key pair: create the table only
+            for n in ast.walk(ast.parse(textwrap.dedent(_inspect.getsource(cls.__init__)))):
+                if isinstance(n, ast.Constant) and isinstance(n.value, str) and n.value.strip().upper().startswith('CREATE'):
+                    self.real.execute(n.value)
+        else:
+            tmp = object.__new__(cls)
+            cls.__init__(tmp, self.real)
+        for r in rows or []:
+            cols = list(r.keys())
+            vals = [bytes(v) if isinstance(v, list) else v for v in r.values()]
+            self.real.execute('INSERT INTO %s (%s) VALUES (%s)' % (self.sch.table, ', '.join(cols), ', '.join('?' * len(cols))), vals)
+        self.real.commit()
+        self.observer = sqlite3.connect(self.path)
+        self.observer.text_factory = bytes
+        self.snapshots = []
+
+    def snap(self):
+        self.snapshots.append(_read_table(self.observer, self.sch))
+
+    def cursor(self):
+        return CursorProxy(self, self.real.cursor())
+
+    def execute(self, *a):
+        return self.cursor().execute(*a)
+
+    def commit(self):
+        self.real.commit()
+        self.snap()
+
+    def W(self):
+        return _read_table(self.real, self.sch)
+
+    def D(self):
+        return _read_table(self.observer, self.sch)
+
+    def __deepcopy__(self, memo):
+        return ConnSnapshot(self.W(), self.D(), self.store)
+
+    def cleanup(self):
+        try:
+            self.real.close()
+            self.observer.close()
+        finally:
+            shutil.rmtree(self.dir, ignore_errors=True)
+
+
+def _b(v):
+    return bytes(v) if isinstance(v, list) else v
+
+
+def db_env(E):
+    """native versions of the table-view spec forms of pyvc/sqlmodel.py"""
+    def raw(x):
+        return object.__getattribute__(x, '_o') if isinstance(x, View) else x
+
+    def db_w(c):
+        c = raw(c)
+        return dict(c.W) if isinstance(c, ConnSnapshot) else c.W()
+
+    def db_d(c):
+        c = raw(c)
+        return dict(c.D) if isinstance(c, ConnSnapshot) else c.D()
+
+    def key(store, **kw):
+        sch = _schema(store)
+        k = tuple(norm(kw[c]) for c in sch.unique)
+        return k if len(k) > 1 else k[0]
+
+    def row(store, **kw):
+        sch = _schema(store)
+        return tuple(norm(kw.get(c)) for c in sch.cols)
+
+    def col(store, r, c):
+        return r[_schema(store).idx(c)] if r is not None else None
+
+    def with_col(store, r, c, v):
+        sch = _schema(store)
+        r = list(r)
+        r[sch.idx(c)] = norm(v)
+        return tuple(r)
+
+    def map_put(m, k, v):
+        m = dict(m)
+        m[k] = v
+        return m
+
+    def map_del(m, k):
+        m = dict(m)
+        m.pop(k, None)
+        return m
+
+    def getter(name, obj):
+        o = raw(obj)
+        return norm(getattr(o, name.split('.')[-1])())
+
+    def pure_call(q, *args):
+        mod, _, cname = q.rpartition('.')
+        cls = getattr(importlib.import_module(mod), cname)
+        return cls(*[_b(a) for a in args])
+
+    def same_obj(a, b):
+        a, b = raw(a), raw(b)
+        if hasattr(a, 'serialize') and hasattr(b, 'serialize'):
+            return a.serialize() == b.serialize()
+        return a is b or norm(a) == norm(b)
+
+    def at_every_db_event(c, pred):
+        c = raw(c)
+        return all(pred(d) for d in c.snapshots)
+    return {
+        'db_w': db_w, 'db_d': db_d, 'key': key, 'row': row, 'col': col, 'with_col': with_col,
+        'col_is': lambda store, r, c, v: col(store, r, c) == norm(v), 'col_is_null': lambda store, r, c: col(store, r, c) is None,
+        'map_put': map_put, 'map_del': map_del, 'map_get': lambda m, k: m.get(k), 'map_eq': lambda a, b: a == b,
+        'contains_key': lambda m, k: k in m, 'getter': getter, 'pure_call': pure_call, 'same_obj': same_obj,
+        'at_every_db_event': at_every_db_event, 'rows_all': lambda m: list(m.values()),
+        'rows_unsent': lambda m: [r for r in m.values() if r[1] is None or r[1] == 0],
+        'max_key': lambda m: max(m.keys()) if m else None,
+    }
 
 
 def find_class(cname):
@@ -247,11 +448,47 @@ class Evaluator:
             'exc_origin': lambda: getattr(self.exc, 'name', ''),
             'result': self.result,
         })
+        dbe = db_env(self)
+        e.update(dbe)
+        for k_, v_ in dbe.items():          # spec functions defined in the sidecar call these as module globals
+            if not hasattr(self.mod, k_) or getattr(getattr(self.mod, k_), '__module__', '') != self.mod.__name__:
+                setattr(self.mod, k_, v_)
         e.update(self.pre if which == 'pre' else self.post)
         return e
 
+    def expand_helpers(self, node, depth=0):
+        """Sidecar helper functions (plain `return expr` functions) are macros of the contract language: expand them, so
+        that old(...) inside a helper refers to the pre-state exactly as it does for the prover."""
+        mod = self.mod
+        ev = self
+
+        class X(ast.NodeTransformer):
+            def visit_Call(s, n):
+                n = s.generic_visit(n)
+                if isinstance(n.func, ast.Name) and depth < 12:
+                    f = getattr(mod, n.func.id, None)
+                    if inspect.isfunction(f) and f.__module__ == mod.__name__ and n.func.id not in lang.REGISTRY['specs'] \
+                            and not n.func.id.startswith(('gen_', '_')):
+                        try:
+                            fd = ast.parse(textwrap.dedent(inspect.getsource(f))).body[0]
+                        except Exception:
+                            return n
+                        body = [st for st in fd.body if not (isinstance(st, ast.Expr) and isinstance(st.value, ast.Constant))]
+                        if len(body) == 1 and isinstance(body[0], ast.Return) and not fd.decorator_list:
+                            params = [a.arg for a in fd.args.args]
+                            if len(params) == len(n.args) and not n.keywords:
+                                sub = dict(zip(params, n.args))
+
+                                class S(ast.NodeTransformer):
+                                    def visit_Name(s2, nn):
+                                        return copy.deepcopy(sub[nn.id]) if nn.id in sub else nn
+                                return ev.expand_helpers(S().visit(copy.deepcopy(body[0].value)), depth + 1)
+                return n
+        return X().visit(node)
+
     def ev(self, node, which='post'):
         node = copy.deepcopy(node)
+        node = self.expand_helpers(node)
         olds = {}
 
         class T(ast.NodeTransformer):
@@ -269,6 +506,17 @@ class Evaluator:
 
 
 def run_case(mod, file, qualname, scenario):
+    try:
+        return _run_case(mod, file, qualname, scenario)
+    finally:
+        for p in scenario.pop('$cleanup', []):
+            try:
+                p.cleanup()
+            except Exception:
+                pass
+
+
+def _run_case(mod, file, qualname, scenario):
     """Run the real function on one concrete scenario and judge it by the contract.  Returns a dict."""
     fn = lang.REGISTRY['contracts'][(file, qualname)]
     params, clauses, tree = parse_contract(fn)
